@@ -327,27 +327,42 @@ def _mk_case(rng):
 EXH_SHAPES = ([1, 1], [1, 2], [2, 1], [1, 3], [3, 1], [2, 2], [2, 3], [3, 2])
 
 
+def _interleave(head, blocks, rands):
+    """corpus first; the (heavy) exhaustive blocks spread evenly among the random cases so that the
+    engine's contiguous chunks get equal work"""
+    out = list(head)
+    if not blocks:
+        return out + rands
+    step = max(1, len(rands) // len(blocks))
+    ri = 0
+    for b in blocks:
+        out.append(b)
+        out += rands[ri:ri + step]
+        ri += step
+    return out + rands[ri:]
+
+
 def cases(rng, tier):
-    out = list(_corpus()) if tier != 'search' else []
+    head = list(_corpus()) if tier != 'search' else []
+    blocks = []
     if tier == 'thorough':
         for shp in EXH_SHAPES:
             n = shp[0] * shp[1]
             ns = 3 ** n
             per = 729 if n < 6 else 3
             for lo in range(0, ns, per):
-                out.append(dict(block='exh', shape=shp, elems=['cross', 'box'], surfs=list(range(lo, min(ns, lo + per)))))
+                blocks.append(dict(block='exh', shape=shp, elems=['cross', 'box'], surfs=list(range(lo, min(ns, lo + per)))))
     else:
         k = 12 if tier == 'quick' else 40
         for shp in ([2, 3], [3, 2]):
             for si in sorted(rng.sample(range(729), k // 2)):
-                out.append(dict(block='exh', shape=shp, elems=['cross', 'box'], surfs=[si]))
+                blocks.append(dict(block='exh', shape=shp, elems=['cross', 'box'], surfs=[si]))
         for shp in ([1, 3], [2, 2], [3, 1], [1, 2]):
             n = shp[0] * shp[1]
-            out.append(dict(block='exh', shape=shp, elems=['cross', 'box'], surfs=list(range(3 ** n))))
+            blocks.append(dict(block='exh', shape=shp, elems=['cross', 'box'], surfs=list(range(3 ** n))))
     nrand = dict(quick=1500, thorough=30000, search=8000)[tier]
-    for _ in range(nrand):
-        out.append(_mk_case(rng))
-    return out
+    rands = [_mk_case(rng) for _ in range(nrand)]
+    return _interleave(head, blocks, rands)
 
 
 def shrink(case):
